@@ -313,8 +313,14 @@ fn run_case(line: &str) -> String {
                 Ok("(Ok (0))".to_string())
             },
             "DR" => {
-                // one read stops at the end of the buffer (the wrap point): read until nothing is left
-                while w.c.ring.read_all(|_t, _b| {}) > 0 {}
+                // one read stops at the end of the buffer (the wrap point) and a pass may consume only a padding record:
+                // read until the ring is empty
+                let mut guard = 0;
+                while w.c.ring.size() > 0 {
+                    w.c.ring.read_all(|_t, _b| {});
+                    guard += 1;
+                    assert!(guard < 1000);
+                }
                 Ok("(Ok (0))".to_string())
             },
             other => panic!("unknown case kind {}", other),
